@@ -114,9 +114,8 @@ func checkC20NameAgree(c *Ctx) {
 // C15.map-complete: reading into maps reports every selected column of every row: each iteration of the
 // column loop of scanIntoMap stores an entry for the column (a NULL becomes nil, it is not skipped - a
 // reused destination map would keep the previous row's value).
-func checkC15MapComplete(c *Ctx) {
+func checkC15MapComplete(c *Ctx, r *Rule) {
 	p := c.P
-	r := c.Rule("C15.map-complete", "scanIntoMap stores an entry for every column on every path of an iteration", 1)
 	f := p.FuncDecl(pkgGorm, "scanIntoMap")
 	c.Touch(f)
 	info := f.Pkg.TypesInfo
